@@ -1,3 +1,4 @@
+import CssVerif.Model.OutEffectDom
 import CssVerif.Lemmas.OutEffectVal
 import CssVerif.Model.OutRules
 /-!
@@ -15,10 +16,6 @@ structure PropRewrite (p : Prefs) (f : Property → Property) : Prop where
   text : ∀ lv pr, doProperty p lv (f pr) = doProperty p lv pr
   name : ∀ pr, (f pr).name = pr.name
   priority : ∀ pr, (f pr).priority = pr.priority
-
-def DItem.mapProp (f : Property → Property) : DItem → DItem
-  | .prop pr => .prop (f pr)
-  | it => it
 
 /-- the step of the reversed scan of `getPropertyIdx` -/
 def gpStep (name : Cps) (st : Option Nat × Option Nat) (it : DItem × Nat) : Option Nat × Option Nat :=
@@ -100,30 +97,6 @@ theorem doDecl_mapProp (lv : Nat) (items : List DItem) (om : Bool) :
 end
 
 /-! ### the three rewrites -/
-
-/-- `minimizeColorHash` on a property: its value is rewritten (`effObj`) -/
-def Property.effValue (p : Prefs) (pr : Property) : Property := { pr with value := effObj p pr.value }
-
-/-- `defaultPropertyName` (read only when `keepAllProperties` is off, `_propertyname`): the literal name is replaced
-by the normalised name, in the name sequence and as `literalname` -/
-def Property.effName (p : Prefs) (pr : Property) : Property :=
-  if p.defaultPropertyName && !p.keepAllProperties then
-    { pr with
-      nameseq := pr.nameseq.map fun
-        | .str s => if pr.literalname == s then .str pr.name else .str s
-        | c => c,
-      literalname := pr.name }
-  else pr
-
-/-- `defaultPropertyPriority`: the literal priority is replaced by the normalised one -/
-def Property.effPrio (p : Prefs) (pr : Property) : Property :=
-  if p.defaultPropertyPriority then
-    { pr with
-      prioseq := pr.prioseq.map fun
-        | .str s => if s == pr.literalpriority then .str pr.priority else .str s
-        | c => c,
-      literalpriority := pr.priority }
-  else pr
 
 theorem propRewrite_effValue (p : Prefs) : PropRewrite p (Property.effValue p) where
   text := by
@@ -215,15 +188,8 @@ theorem PropRewrite.comp {p : Prefs} {f g : Property → Property} (hf : PropRew
   name := by intro pr; simp only [Function.comp, hf.name, hg.name]
   priority := by intro pr; simp only [Function.comp, hf.priority, hg.priority]
 
-/-- the documented effect of the leaf preferences on one property -/
-def Property.effect (p : Prefs) : Property → Property :=
-  Property.effValue p ∘ Property.effPrio p ∘ Property.effName p
-
 theorem propRewrite_effect (p : Prefs) : PropRewrite p (Property.effect p) :=
   (propRewrite_effValue p).comp ((propRewrite_effPrio p).comp (propRewrite_effName p))
-
-/-- … on a declaration block -/
-def effectDecl (p : Prefs) (items : List DItem) : List DItem := items.map (DItem.mapProp (Property.effect p))
 
 theorem doDecl_effectDecl (p : Prefs) (lv : Nat) (items : List DItem) (om : Bool) :
     doDecl p lv (effectDecl p items) om = doDecl p lv items om :=
